@@ -102,7 +102,9 @@ PLANS = {
     "C11": {
         "quick": [("c11m", inst(LeafFam="<-C11Leaves", MaxLeaves=2, MaxCalls=3, PoisonSet="<-cPoison", UpFam="<-cUpBoth", StrictFam="<-cStrictOnly",
                                 Method='{"r0", "r1"}', Vias="<-cViaVerify"), {"clones": 1}, None)],
-        "thorough": [("c11mt", inst(LeafFam="<-C11Leaves", MaxLeaves=2, MaxCalls=4, PoisonSet="<-cPoison", UpFam="<-cUpBoth",
-                                    Method='{"r0", "r1"}', Vias="<-cViaAll"), {"clones": 2}, None)],
+        "thorough": [("c11mt", inst(LeafFam="<-C11Leaves", MaxLeaves=2, MaxCalls=3, PoisonSet="<-cPoison", UpFam="<-cUpBoth",
+                                    Method='{"r0", "r1"}', Vias="<-cViaAll"), {"clones": 2}, None),
+                     ("c11ms", inst(LeafFam="<-C11Leaves", MaxLeaves=2, MaxCalls=6, PoisonSet="<-cPoison", UpFam="<-cUpBoth",
+                                    Method='{"r0", "r1"}', Vias="<-cViaAll"), {"clones": 1}, {"num": 150000, "depth": 9})],
     },
 }
